@@ -21,8 +21,16 @@ import (
 // with the same synchronisation pairing computes the same memory contents.  Schedules in which
 // a writer receives another generation's token first (the put-back-and-sleep path) are outside.
 //vsym:prop=C07 tier=quick ints=int floats=real timeout=60 maxruns=200
-func H_C07_run_simulation() {
-	g := c07makeGraph(false)
+func H_C07_run_simulation() { c07loop(false) }
+
+// H_C07_run_simulation_two_models: the same with a second, unlinked Muskingum node in
+// generation 0: two model types run in one generation, the Muskingum batch table is [1,1,2] (an
+// empty middle batch), and the linked node is row 1 of its model but index 0 of its generation.
+//vsym:prop=C07 tier=quick ints=int floats=real timeout=60 maxruns=200
+func H_C07_run_simulation_two_models() { c07loop(true) }
+
+func c07loop(extra bool) {
+	g := c07makeGraph(extra)
 	fn, out, T, sp, ss, si, mp, ms, mi := g.fn, g.out, g.T, g.sp, g.ss, g.si, g.mp, g.ms, g.mi
 	_ = fn
 	vsym.LogStart()
@@ -41,14 +49,19 @@ func H_C07_run_simulation() {
 	rss.CopyFrom(ss)
 	rso := sim.InitialiseOutputs(sh, T, 2)
 	sh.Run(si, rss, rso)
+	nm, ln := 1, 0
+	if extra {
+		nm, ln = 2, 1
+	}
 	mk := sim.Catalog["Muskingum"]()
 	mk.ApplyParameters(mp)
-	rmi := data.NewArray3DFloat64(1, 2, T)
-	rmi.Set3(0, 0, 0, mi.Get3(0, 0, 0)+rso.Get3(0, 0, 0)+rso.Get3(1, 0, 0))
-	rmi.Set3(0, 1, 0, mi.Get3(0, 1, 0)+rso.Get3(1, 2, 0))
-	rms := data.NewArray2DFloat64(1, 3)
+	rmi := data.NewArray3DFloat64(nm, 2, T)
+	rmi.CopyFrom(mi)
+	rmi.Set3(ln, 0, 0, mi.Get3(ln, 0, 0)+rso.Get3(0, 0, 0)+rso.Get3(1, 0, 0))
+	rmi.Set3(ln, 1, 0, mi.Get3(ln, 1, 0)+rso.Get3(1, 2, 0))
+	rms := data.NewArray2DFloat64(nm, 3)
 	rms.CopyFrom(ms)
-	rmo := sim.InitialiseOutputs(mk, T, 1)
+	rmo := sim.InitialiseOutputs(mk, T, nm)
 	mk.Run(rmi, rms, rmo)
 
 	so, e1 := (io.H5RefFloat64{Filename: out, Dataset: "/MODELS/Simhyd/outputs"}).Load()
@@ -56,8 +69,18 @@ func H_C07_run_simulation() {
 	mo, e3 := (io.H5RefFloat64{Filename: out, Dataset: "/MODELS/Muskingum/outputs"}).Load()
 	mst, e4 := (io.H5RefFloat64{Filename: out, Dataset: "/MODELS/Muskingum/states"}).Load()
 	min, e5 := (io.H5RefFloat64{Filename: out, Dataset: "/MODELS/Muskingum/inputs"}).Load()
-	vsym.Assert(e1 == nil && e2 == nil && e3 == nil && e4 == nil && e5 == nil, "every-generation-written-before-return")
-	if e1 != nil || e2 != nil || e3 != nil || e4 != nil || e5 != nil {
+	vsym.Assert(e1 == nil, "every-generation-written-before-return:simhyd-outputs")
+	vsym.Assert(e2 == nil, "every-generation-written-before-return:simhyd-states")
+	vsym.Assert(e3 == nil, "every-generation-written-before-return:muskingum-outputs")
+	vsym.Assert(e4 == nil, "every-generation-written-before-return:muskingum-states")
+	// final inputs are written by default only for models without nodes in generation 0
+	// (writeInputs(modelName, Batches[0] == 0)): present in the one-model graph, absent here
+	if extra {
+		vsym.Assert(e5 != nil, "inputs-not-written-for-a-model-with-nodes-in-generation-0")
+	} else {
+		vsym.Assert(e5 == nil, "every-generation-written-before-return:muskingum-inputs")
+	}
+	if e1 != nil || e2 != nil || e3 != nil || e4 != nil || (e5 != nil) != extra {
 		return
 	}
 	for c := 0; c < 2; c++ {
@@ -68,10 +91,14 @@ func H_C07_run_simulation() {
 			vsym.AssertNear(sst.Get([]int{c, s}), rss.Get2(c, s), 1e-9, 1e-9, "simhyd-states-at-node-rows-equal-reference")
 		}
 	}
-	vsym.AssertNear(min.Get([]int{0, 0, 0}), rmi.Get3(0, 0, 0), 1e-9, 1e-9, "linked-input-is-stored-plus-sum-of-linked-outputs")
-	vsym.AssertNear(min.Get([]int{0, 1, 0}), rmi.Get3(0, 1, 0), 1e-9, 1e-9, "linked-input-is-stored-plus-sum-of-linked-outputs")
-	vsym.AssertNear(mo.Get([]int{0, 0, 0}), rmo.Get3(0, 0, 0), 1e-9, 1e-9, "muskingum-outputs-equal-reference")
-	for s := 0; s < 3; s++ {
-		vsym.AssertNear(mst.Get([]int{0, s}), rms.Get2(0, s), 1e-9, 1e-9, "muskingum-states-equal-reference")
+	for c := 0; c < nm; c++ {
+		if !extra {
+			vsym.AssertNear(min.Get([]int{c, 0, 0}), rmi.Get3(c, 0, 0), 1e-9, 1e-9, "linked-input-is-stored-plus-sum-of-linked-outputs")
+			vsym.AssertNear(min.Get([]int{c, 1, 0}), rmi.Get3(c, 1, 0), 1e-9, 1e-9, "linked-input-is-stored-plus-sum-of-linked-outputs")
+		}
+		vsym.AssertNear(mo.Get([]int{c, 0, 0}), rmo.Get3(c, 0, 0), 1e-9, 1e-9, "muskingum-outputs-equal-reference")
+		for s := 0; s < 3; s++ {
+			vsym.AssertNear(mst.Get([]int{c, s}), rms.Get2(c, s), 1e-9, 1e-9, "muskingum-states-equal-reference")
+		}
 	}
 }
